@@ -239,6 +239,14 @@ pub fn build(input: &FstInput) -> Result<Built, String> {
     r.map(|bytes| Built { bytes, evictions })
 }
 
+/// Whether the raw-insert front end routes zero-valued keys through add(). Switched off only by
+/// tools/recheck_seeds.py --base-rev, which re-runs seeded changes that were written against the
+/// tree as it stood before fix 31bb6f9 (defect G lives exactly in that mixture).
+fn mix_add() -> bool {
+    static ON: std::sync::OnceLock<bool> = std::sync::OnceLock::new();
+    *ON.get_or_init(|| std::env::var_os("VERIF_NO_ADD_MIX").is_none())
+}
+
 fn build_inner(input: &FstInput) -> Result<Vec<u8>, String> {
     let ps = &input.pairs;
     match input.front {
@@ -247,7 +255,7 @@ fn build_inner(input: &FstInput) -> Result<Vec<u8>, String> {
             for (i, (k, v)) in ps.iter().enumerate() {
                 // add(k) is documented as inserting k with a zero output: every other zero-valued
                 // key goes in through it, between insert calls
-                if *v == 0 && (i + k.len()) % 2 == 0 {
+                if *v == 0 && (i + k.len()) % 2 == 0 && mix_add() {
                     fe(b.add(k), "add")?;
                 } else {
                     fe(b.insert(k, *v), "insert")?;
